@@ -232,6 +232,10 @@ class Scenario(apiworld.ApiWorld):
             return bad[0]
         if self.shutdown_state != "returned":
             return self._v("shutdown-returns", "shutdown() did not return within 10 s of virtual time")
+        if self.p.get("prompt_reinit") == "before-settle":
+            # init() again in the very loop iteration in which shutdown() returned: handlers of the old session that
+            # are still suspended resume inside the new one
+            return self._reinit_oracle(prompt=True)
         # the moment shutdown() has returned (callbacks already queued may run, the clock does not move):
         # no timer and no task of the client is left
         L.settle()
@@ -359,11 +363,11 @@ def run(tier, seed, part=None):
             chk.add_explorer(f"at{gen}/backbone/{name}", SPEC, params, res,
                              {"script_events": len(script), "shutdown": "at every turn boundary", "deviations": 1})
         # ... and the same for the handshake backbones with init() called again the moment shutdown() has returned
-        for name in ("handshake+heartbeat+poll", "pending-while-down"):
+        for name, mode in (("handshake+heartbeat+poll", True), ("pending-while-down", True), ("handshake+heartbeat+poll", "before-settle")):
             script = scripts[name][:8]
-            params = {"gen": gen, "script": script, "max_tick": 99, "prompt_reinit": True}
-            res = explorer.explore(SPEC, params, len(script) + 1, 1, time_cap=cap, seed=seed, label=f"at{gen}/{name}/prompt-reinit")
-            chk.add_explorer(f"at{gen}/backbone/{name}/prompt-reinit", SPEC, params, res,
+            params = {"gen": gen, "script": script, "max_tick": 99, "prompt_reinit": mode}
+            res = explorer.explore(SPEC, params, len(script) + 1, 1, time_cap=cap, seed=seed, label=f"at{gen}/{name}/prompt-reinit/{mode}")
+            chk.add_explorer(f"at{gen}/backbone/{name}/prompt-reinit" + ("" if mode is True else "/same-iteration"), SPEC, params, res,
                              {"script_events": len(script), "shutdown": "at every turn boundary", "then": "init() at once", "deviations": 1})
         if tier == "thorough":
             for depth, dev in [(9, 1), (7, 2)]:
